@@ -186,6 +186,67 @@ def run(ctx):
     if nlocked < 12:
         raise AnalysisBroken('expected >= 12 locked list functions, found %d' % nlocked)
 
+    # ---------------- (e) inserting wrappers: the placement is decided under the lock, on every path
+    # An emptiness (or any other) test made before the lock is stale by the time the element is linked: the only
+    # thing an unlocked test may decide is to return without touching the list (pop_front / pop_back on an empty list).
+    re_ = ctx.rule('R31.e', 'locked inserting wrappers go through their nolock sibling under the lock on every path; an unlocked emptiness test only ever leads to a plain return', floor=6)
+    for name in ('parsec_list_push_sorted', 'parsec_list_chain_sorted', 'parsec_list_sort', 'parsec_list_add_after'):
+        if name not in fs:
+            raise AnalysisBroken('%s not found' % name)
+        g = fs[name]
+        sib = name.replace('parsec_list_', 'parsec_list_nolock_')
+        cs = g.calls(sib)
+        ls = lockset_analysis(g, BASE_LOCKS)
+        ok = len(cs) == 1 and g.postdominates(cs[0].point, (g.entry, 0)) and bool(ls.must_before(cs[0])) \
+            and [a.s for a in cs[0].args] == [p_['n'] for p_ in g.params]
+        others = [c for c in g.calls() if c.fn and c.fn not in (sib, 'parsec_list_lock', 'parsec_list_unlock')]
+        re_.expect(ok and not others, '%s:through-sibling' % name, (others or cs or [None])[0].loc if (others or cs) else g.where(),
+                   '%s must hand its arguments to %s under the list lock on every path and do nothing else to the list%s: a placement decided before the lock is taken '
+                   '(an emptiness fast path, say) is stale when the element is linked and breaks the order under concurrent insertions'
+                   % (name, sib, ' (also calls %s)' % sorted({c.fn for c in others}) if others else ''), note='%s = lock; %s(same arguments); unlock on every path' % (name, sib))
+    nempty = 0
+    for name, g in sorted(fs.items()):
+        if not (name.startswith('parsec_list_') or name.startswith('parsec_dequeue_')) or '_nolock_' in name:
+            continue
+        ie = g.calls('parsec_list_nolock_is_empty')
+        if not ie:
+            continue
+        ls = lockset_analysis(g, BASE_LOCKS)
+        for c in ie:
+            must = ls.must_before(c)
+            if must is None or must:
+                continue
+            if name in ('parsec_list_is_empty',):
+                continue
+            nempty += 1
+            # the branch on this call: on the 'empty' edge nothing but a return may follow
+            bad = None
+            for b in g.blocks:
+                cnd = g.cond(b)
+                if cnd is None:
+                    continue
+                a, pol = cond_atom(cnd)
+                if not (a.k == 'call' and a.nid == c.e.nid):
+                    continue
+                for s_, lab in g.succs(b):
+                    if not isinstance(lab, bool) or lab != pol:
+                        continue
+                    seen = set(); todo = [s_]
+                    while todo:
+                        x = todo.pop()
+                        if x in seen:
+                            continue
+                        seen.add(x)
+                        for ev in g.block_events(x):
+                            if ev.kind in ('call', 'store') and not (ev.kind == 'store' and ev.lhs.k == 'ref'):
+                                bad = ev
+                        todo.extend(t for t, _ in g.succs(x))
+            re_.expect(bad is None, '%s:unlocked-empty-test' % name, c.loc,
+                       '%s tests emptiness outside the list lock and then %s: the list may have changed by then; an unlocked emptiness test may only lead to a plain return'
+                       % (name, bad.e.s if bad is not None and bad.e is not None else (bad.lhs.s if bad is not None else '')), note='%s: unlocked emptiness test only leads to a return' % name)
+    if nempty < 2:
+        raise AnalysisBroken('expected the unlocked emptiness fast paths of pop_front / pop_back (found %d)' % nempty)
+
     # ---------------- (c) mirrors
     for a, b in MIRRORS:
         fa, fb = u.func(a), u.func(b)
